@@ -184,6 +184,39 @@ def order_violation(calls, flat):
     return None
 
 
+def dotname_cases(rnd):
+    """entries whose NAME (not a path component followed by a separator, which the library collapses) is '..', '.' or
+    empty, as directory, file and link, with recorded mode / time / owner: nothing may reach the parent of the
+    extraction directory"""
+    import struct, lhabuild as lb
+    lines = []
+    def hdr(method, exts, lv=2, data=b"", ts=T.T_A):
+        f = {"level": lv, "method": method, "clen": len(data), "length": len(data), "crc": lb.crc16(data), "os": T.U, "attr": 0x20,
+             "time": ts if lv >= 2 else T.DOS_B, "exts": exts}
+        if lv == 1:
+            f["name"] = b""
+        return lb.build_header(f) + data
+    perms_d = (0x50, struct.pack("<H", 0o40700))
+    perms_f = (0x50, struct.pack("<H", 0o100600))
+    owner = (0x51, struct.pack("<HH", 1, 1))
+    stamp = (0x54, struct.pack("<I", T.T_A))
+    variants = []
+    for nm in (b"..", b".", b""):
+        for lv in (1, 2, 3):
+            tail = [perms_d, owner] + ([stamp] if lv == 1 else [])
+            variants.append(hdr(b"-lhd-", [(1, nm), (2, b"\xff")] + tail, lv))               # path "/", name ".."
+            variants.append(hdr(b"-lhd-", [(2, nm + b"\0\xff")] + tail, lv))                  # the NUL hides the separator
+            variants.append(hdr(b"-lhd-", [(1, nm), (2, b"d\xff")] + tail, lv))              # d/..
+            variants.append(hdr(b"-lhd-", [(1, nm)] + tail, lv))
+            variants.append(hdr(b"-lh0-", [(1, nm), perms_f], lv, b"data"))
+            variants.append(hdr(b"-lhd-", [(1, nm + b"|../outside"), (0x50, struct.pack("<H", 0o120777))], lv))
+    for v in variants:
+        arc = v + hdr(b"-lh0-", [(1, b"after"), perms_f], 2, b"x") + b"\0"
+        for cmd in (b"x", b"xf", b"xq2", b"xw=o", b"e"):
+            lines.append(TC.case([cmd, TC.ARC], arc, uid0=1 if rnd.random() < 0.3 else 0))
+    return lines
+
+
 def run(ctx):
     rnd = random.Random(ctx.seed * 7919 + 10)
     cb = CBuild(PID)
@@ -206,6 +239,7 @@ def run(ctx):
         fam["corrupt"] = TC.fam_corrupt(pool, arcs, q, rnd, 100 if q else 4000)
         if q:
             fam["danger"] = TC.thin(fam["danger"], 500, rnd)
+        fam["dotnames"] = dotname_cases(rnd)
         corpus = [l.strip() for l in open(os.path.join(common.VERIF, "corpus", "C10", "deferred_through_safe_link.txt")) if l.startswith("cli ")]
         fam["corpus"] = corpus
         base_line = TC.case([b"t", TC.ARC], b"\0")
@@ -284,7 +318,7 @@ def run(ctx):
         viol.sort(key=lambda v: len(v["case"]))
         cov = {"evaluations": sum(len(v) for v in fam.values()) + n_ord, "distinct_nontrivial": n_conf + n_ro,
                "rule": "invocations of the real tool in a jail: hand-built and generated archives with dangerous and safe links chained, "
-                       "links then directories of the same name, equal-length deferred links, hostile names ('..', absolute, "
+                       "links then directories of the same name, equal-length deferred links, entries whose own name is '..', '.' or empty (as directory, file, link; with recorded mode, time, owner; as uid 65534 and as root), hostile names ('..', absolute, "
                        "backslash, 0xFF, NUL), corrupt archives; every command letter; option sets over f q0-q2 i v n w=DIR (simple, "
                        "nested, absolute, empty, with '..'); pre-existing files, directories and links at the targets with prompt "
                        "answers; a share of the runs as root.  (a) %d extractions whose precondition holds: everything outside "
